@@ -219,6 +219,41 @@ namespace vh {
         });
         return "{\"oc\":" + jstr(o.oc) + ",\"ex\":" + jstr(o.ex) + "}";
       }
+      if (op == "call_str") {
+        // calls a script-visible function with one C++ string argument (no script-literal escaping involved)
+        Outcome o = classify(chai, [&]() -> Boxed_Value {
+          auto f = chai.eval<std::function<Boxed_Value(const std::string &)>>(st.str("fn"));
+          return f(st.str("arg"));
+        });
+        std::string r = "{\"oc\":" + jstr(o.oc);
+        if (!o.v.empty()) { r += ",\"v\":" + jstr(o.v); }
+        if (!o.ex.empty()) { r += ",\"ex\":" + jstr(o.ex); }
+        if (!o.why.empty()) { r += ",\"why\":" + jstr(o.why); }
+        return r + "}";
+      }
+      if (op == "json_rt") {
+        // from_json(text) ; to_json of that ; from_json again
+        std::string r = "{";
+        Outcome o1 = classify(chai, [&]() -> Boxed_Value {
+          return chai.eval<std::function<Boxed_Value(const std::string &)>>("from_json")(st.str("arg"));
+        });
+        r += "\"oc\":" + jstr(o1.oc) + ",\"v\":" + jstr(o1.v) + ",\"ex\":" + jstr(o1.ex);
+        if (o1.oc == "val") {
+          std::string text;
+          Outcome o2 = classify(chai, [&]() -> Boxed_Value {
+            text = chai.eval<std::function<std::string(const Boxed_Value &)>>("to_json")(o1.value);
+            return const_var(text);
+          });
+          r += ",\"oc2\":" + jstr(o2.oc) + ",\"text2\":" + jstr(text);
+          if (o2.oc == "val") {
+            Outcome o3 = classify(chai, [&]() -> Boxed_Value {
+              return chai.eval<std::function<Boxed_Value(const std::string &)>>("from_json")(text);
+            });
+            r += ",\"oc3\":" + jstr(o3.oc) + ",\"v3\":" + jstr(o3.v);
+          }
+        }
+        return r + "}";
+      }
       throw std::runtime_error("unknown step op " + op);
     }
   };
